@@ -167,8 +167,12 @@ def l2_l3(chk):
 
 
 def run(chk, tier, seed):
+    import random
+    rnd = random.Random(seed)
     ll, so = llcheck.build_harness(CRATE)
     mod = llcheck.load_module(ll)
+    cases = [(rnd.randrange(63), rnd.randrange(31), rnd.randrange(15), rnd.randrange(2)) for _ in range(16)]
+    llcheck.selftest(chk, mod, so, '@harness_simple_id', lambda c: (State(), list(c)), lambda c: [('int', v, 'c_uint32') for v in c], cases, ret='c_uint32', ret_bits=32)
     l1(chk, mod, so)
     l2_l3(chk)
     chk.cov['exhaustive'] = True
